@@ -26,7 +26,8 @@ type c16Call struct {
 	Reverse int  `json:"reverse"`
 	Alias   bool `json:"alias,omitempty"`
 	Gate    bool `json:"gate,omitempty"`
-	Slow    bool `json:"slow,omitempty"` // blocked in a reverse call when the cut happens
+	Slow    bool `json:"slow,omitempty"`  // blocked in a reverse call when the cut happens
+	Burst   int  `json:"burst,omitempty"` // concurrent reverse calls with 1 MiB arguments into a client whose link is stalled, then cut
 }
 
 type c16Case struct {
@@ -77,6 +78,20 @@ func runC16(c c16Case) (*Violation, string) {
 	for i, cc := range c.Calls {
 		cl := clients[cc.Client%len(clients)]
 		tok := rig.Tok(fmt.Sprintf("f%d", i))
+		if cc.Burst > 0 && c.Cut != nil && cc.Client%len(clients) == c.Cut.Conn {
+			// the link stops moving data first (both directions), so the server's connection loop gets stuck in a write
+			// while further reverse calls pile up behind it; the cut itself follows below
+			p := rig.Go(cl, "call", tok, Plan{Gate: true, RevBurst: cc.Burst})
+			rig.W.WaitStarted(tok, time.Second)
+			rig.Proxy.mu.Lock()
+			pc := rig.Proxy.conns[c.Cut.Conn]
+			rig.Proxy.mu.Unlock()
+			pc.kill("stall")
+			rig.W.Release(tok)
+			time.Sleep(150 * time.Millisecond)
+			ps = append(ps, p)
+			continue
+		}
 		ps = append(ps, rig.Go(cl, "call", tok, Plan{Gate: cc.Gate, Reverse: cc.Reverse, RevAlias: cc.Alias, RevSlow: cc.Slow}))
 	}
 	// gated calls make their reverse calls only after all forward calls are pending (nesting under concurrency)
@@ -99,7 +114,7 @@ func runC16(c c16Case) (*Violation, string) {
 		cutConn = c.Cut.Conn
 		// wait for the slow reverse calls to be in progress, then make sure the cut happened
 		for i, cc := range c.Calls {
-			if cc.Slow {
+			if cc.Slow || cc.Burst > 0 {
 				deadline := time.Now().Add(2 * time.Second)
 				for !rig.W.InReverse(ps[i].Tok) && time.Now().Before(deadline) && rig.W.Running(ps[i].Tok) {
 					time.Sleep(time.Millisecond)
@@ -150,7 +165,7 @@ func runC16(c c16Case) (*Violation, string) {
 	for i, p := range ps {
 		cc := c.Calls[i]
 		ci := cc.Client % len(clients)
-		if cutConn >= 0 && (ci == cutConn || cc.Slow) {
+		if cutConn >= 0 && (ci == cutConn || cc.Slow) || cc.Burst > 0 {
 			continue // the forward call itself may fail or be left behind; only non-blocking was required
 		}
 		select {
@@ -207,6 +222,9 @@ func c16NT(c c16Case) (bool, []string) {
 		if cc.Slow {
 			cl = append(cl, "slow_reverse")
 		}
+		if cc.Burst > 0 {
+			cl = append(cl, "burst_into_stalled_link")
+		}
 	}
 	if c.Cut != nil {
 		cl = append(cl, "link_cut", "cut_"+c.Cut.Dir+"_"+c.Cut.Pos)
@@ -223,7 +241,7 @@ func TestC16(t *testing.T) {
 	rec := NewRec("C16", c16Rule)
 	defer rec.Finish(t)
 	rec.EnableJournal()
-	rec.RequireClass("mode_ws", "mode_http", "mode_nooption", "clients_3", "alias_and_tag", "slow_reverse", "link_cut", "several_reverse_calls")
+	rec.RequireClass("burst_into_stalled_link", "mode_ws", "mode_http", "mode_nooption", "clients_3", "alias_and_tag", "slow_reverse", "link_cut", "several_reverse_calls")
 	run := func(ft failer, c c16Case) {
 		nt, cl := c16NT(c)
 		rec.Run(ft, c, nt, cl, func() *Violation {
@@ -260,6 +278,8 @@ func TestC16(t *testing.T) {
 			}
 		}
 		for _, kind := range []string{"fin", "rst"} {
+			run(t, c16Case{Mode: "ws", Clients: 2, Calls: []c16Call{{Client: 0, Burst: 40}, {Client: 1, Reverse: 1}},
+				Cut: &Fault{Conn: 0, Dir: "s2c", Frame: 9999, Pos: "before", Kind: kind}})
 			run(t, c16Case{Mode: "ws", Clients: 2, Calls: []c16Call{{Client: 0, Slow: true}, {Client: 1, Reverse: 1}, {Client: 0, Slow: true, Reverse: 1}},
 				Cut: &Fault{Conn: 0, Dir: "s2c", Frame: 99, Pos: "before", Kind: kind}})
 		}
